@@ -5,11 +5,11 @@ MCQKinds == {"a", "cname", "wild", "nodata", "nx", "dname"}
 SigBreak == {"data", "sigbytes", "signer", "expired"}
 KindsAt(pos) ==
   CASE pos = "referral" -> SigBreak \cup {"strip", "dropds", "swapds", "dropproof", "foreignproof"}
-    [] pos = "dnskey"   -> SigBreak \cup {"strip", "clonetag"}
-    [] pos = "answer"   -> SigBreak \cup {"labels", "notyet", "strip", "dropproof", "foreignproof", "inject"}
+    [] pos = "dnskey"   -> SigBreak \cup {"strip", "clonetag", "roguekey"}
+    [] pos = "answer"   -> SigBreak \cup {"labels", "notyet", "strip", "dropproof", "foreignproof", "inject", "roguesig"}
 Untouched == [pos \in Positions |-> "none"]
 Single == {[Untouched EXCEPT ![pos] = k] : pos \in Positions, k \in SigBreak \cup {"strip", "dropds", "swapds", "dropproof",
-              "foreignproof", "clonetag", "labels", "notyet", "inject"}}
+              "foreignproof", "clonetag", "labels", "notyet", "inject", "roguekey", "roguesig"}}
 SingleOK == {t \in Single : \A pos \in Positions : t[pos] = "none" \/ t[pos] \in KindsAt(pos)}
 MCTampers == {Untouched} \cup SingleOK
 \* pairs: one tampering at each of two different positions
